@@ -304,7 +304,7 @@ def run_property(prop, tier, seed, level, explanation="", trusted_base=(), worke
         if id(e) not in printed:
             printed.add(id(e))
             print(f"KNOWN-FINDING: property={prop} {e.get('text', text)}")
-    slow = sorted(((r["seconds"], registry.OBLIGATIONS[r["idx"]].name, r["preset"]) for r in results), reverse=True)[:3]
+    slow = sorted(((r["seconds"], registry.OBLIGATIONS[r["idx"]].name, r["preset"]) for r in results), key=lambda t: -t[0])[:3]
     if slow and slow[0][0] > 20:
         print("SLOW-JOBS " + "; ".join(f"{n} {p} {t:.0f}s" for t, n, p in slow))
     for path, text, confirmed in violations:
